@@ -731,14 +731,15 @@ package rockredis
 //@   ensures result2 == nil ==> len(result0) < 65536 && len(result0) <= len(key)
 //@   ensures result2 != errTooMuchBatchSize
 
-// write preparation: an expired or absent collection starts a NEW GENERATION: no meta (size 0), value version = the
-// log timestamp, and the versioned key every element key is built from carries that new version - so nothing of the
+// write preparation: an expired OR ABSENT (cleared / never written) collection starts a NEW GENERATION: no meta (size 0),
+// value version = the log timestamp, and the versioned key every element key is built from carries that new version - so nothing of the
 // predecessor can be seen through it
 //@ func (db *RockDB) prepareCollKeyForWrite(ts int64, dt byte, key []byte, field []byte) (collVerKeyInfo, error)
 //@   requires db != nil && db.expiration != nil
 //@   ensures result1 == nil ==> result0.OldHeader != nil && (result0.OldHeader.Ver == 0 || result0.OldHeader.Ver == 1) && smallTK(result0.Table, result0.VerKey) && collMetaOK(dt, result0.OldHeader.UserData)
 //@   ensures result1 == nil ==> (result0.Expired <==> ghost(collexpired, db) == 1) && verOf(result0.VerKey) == result0.OldHeader.ValueVersion
 //@   ensures result1 == nil && result0.Expired ==> result0.OldHeader.UserData == nil && result0.OldHeader.ValueVersion == ts && result0.OldHeader.ExpireAt == 0
+//@   ensures result1 == nil && result0.OldHeader.UserData == nil ==> result0.OldHeader.ValueVersion == ts && result0.OldHeader.ExpireAt == 0
 //@   ensures result1 == nil ==> fresh(result0.OldHeader) && (result0.OldHeader.UserData == nil || fresh(result0.OldHeader.UserData))
 //@   ensures result1 != errTooMuchBatchSize
 //@   ghostset ghost(lphead, db) := ite(dt == ListType && result1 == nil, lmHead(result0.OldHeader.UserData), old(ghost(lphead, db)))
